@@ -277,7 +277,7 @@ fn setup() -> i32 {
     if bad == 0 {
         println!("setup: futex seam verified ({} simulated waits, {} wake-ups, 0 stalls)", futex_waits, (l1.2).1);
         println!("setup: clock seam verified (fast-forward: {} clock reads served, a parse with a 1 s budget timed out; real clock: it completed)", clock_reads);
-        println!("setup: seams verified ({} query shapes, {} hash orders, 5 layout policies, {} id collisions among {} nodes under split-4G)", gen::SHAPES.len(), distinct.len(), c, n);
+        println!("setup: seams verified ({} query shapes, {} hash orders, 6 layout policies, {} id collisions among {} nodes under split-4G)", gen::SHAPES.len(), distinct.len(), c, n);
         0
     } else {
         2
